@@ -70,7 +70,10 @@ def one_case(ctx, mon, rate, accel, time, accum, ambient, via):
     mon.last = None
     try:
         with ambient:
-            if via == "move_dist_lt":
+            if via == "move_dist_lt" and (rate + time) % 9 == 0:
+                got = G.by_keyword(ebb_calc.move_dist_lt, (rate, accel, time, accum))
+                ctx.tag("arguments passed by keyword")
+            elif via == "move_dist_lt":
                 got = ebb_calc.move_dist_lt(rate, accel, time, accum)
             elif via == "default-accum":
                 got = ebb_calc.move_dist_lt(rate, accel, time)
@@ -146,7 +149,7 @@ def run(ctx):
     chained(ctx, mon, ctx.budget(300, 3000))
     import_time_phase(ctx, ctx.budget(1500, 12000))
     mon = install(ctx)
-    for cls in ("'clear' passed as a string built at run time",
+    for cls in ("arguments passed by keyword", "'clear' passed as a string built at run time",
                 "after a failed call (malformed arguments, exception caught by the caller)",
                 "module imported under low precision", "history: related arguments after a previous call", "T=1", "T=2", "T=3", "T:4..1e3", "T:1e3..1e6", "T:1e6..2^24", "T:2^24..2^32",
                 "accel=0", "accel=+-1", "accel odd neg", "accel odd pos", "accel even",
